@@ -276,6 +276,50 @@ struct RefVec
     }
 };
 
+// single-pass input iterators over a vector: all copies of an iterator share one position, the range can be walked once
+template <typename T>
+struct SinglePassCursor
+{
+    typename std::vector<T>::iterator cur, end;
+};
+template <typename T, bool Move>
+struct SinglePass
+{
+    using iterator_category = std::input_iterator_tag;
+    using value_type = T;
+    using difference_type = std::ptrdiff_t;
+    using pointer = T*;
+    using reference = typename std::conditional<Move, T&&, const T&>::type;
+    SinglePassCursor<T>* c; // nullptr: the end of every range
+    bool at_end() const
+    {
+        return !c || c->cur == c->end;
+    }
+    reference operator*() const
+    {
+        return static_cast<reference>(*c->cur);
+    }
+    SinglePass& operator++()
+    {
+        ++c->cur;
+        return *this;
+    }
+    SinglePass operator++(int)
+    {
+        SinglePass t = *this;
+        ++c->cur;
+        return t;
+    }
+    bool operator==(const SinglePass& o) const
+    {
+        return at_end() == o.at_end();
+    }
+    bool operator!=(const SinglePass& o) const
+    {
+        return !(*this == o);
+    }
+};
+
 struct Op
 {
     int slot = 0;
@@ -286,7 +330,7 @@ struct Op
         std::string s = std::to_string(slot) + ":" + code;
         if (code == "CC" || code == "MC" || code == "CA" || code == "MA")
             return s + std::to_string(other);
-        bool two = code == "EM" || code == "EMS" || code == "IR" || code == "NEWIT" || code == "WR" || code == "LA" || code == "NEWIL" || code == "PBR";
+        bool two = code == "EM" || code == "EMS" || code == "IR" || code == "NEWIT" || code == "WR" || code == "LA" || code == "NEWIL" || code == "PBR" || code == "IRI" || code == "PBRI";
         bool one = two || code == "NEW" || code == "EB" || code == "PB" || code == "IC" || code == "IM" || code == "EBS" || code == "PBS" || code == "ICS" || code == "ER" ||
                    code == "AT" || code == "ATC" || code == "GET";
         if (one)
@@ -1012,6 +1056,51 @@ struct World
             return true;
         }
         // ---------------- range operations
+        if (c == "IRI" || c == "PBRI")
+        {
+            // the same range operations, the range given by single-pass input iterators (like std::istream_iterator: the
+            // range can be walked once, copies of an iterator share the position)
+            bool pb = c == "PBRI";
+            size_t k = pb ? size0 : op.a;
+            int len = pb ? op.a : op.b;
+            if (k > r.cap)
+                return true;
+            auto range = make_range(len, 1);
+            SinglePassCursor<T> cur{ range.begin(), range.end() };
+            if constexpr (std::is_copy_constructible<T>::value)
+            {
+                SinglePass<T, false> first{ &cur }, last{ nullptr };
+                if (pb)
+                    guarded([&] { v.push_back(first, last); });
+                else
+                    guarded([&] { v.insert(v.begin() + k, first, last); });
+            }
+            else
+            {
+                SinglePass<T, true> first{ &cur }, last{ nullptr };
+                if (pb)
+                    guarded([&] { v.push_back(first, last); });
+                else
+                    guarded([&] { v.insert(v.begin() + k, first, last); });
+            }
+            if (fault)
+                return false;
+            if (non_std)
+                fail("C06", "wrong-exception-type", what);
+            bool fits = k <= size0 && k + len <= r.cap;
+            if (!fits && !threw)
+                fail("C06", "unsatisfiable-operation-did-not-throw", what + ": the range does not fit (or starts beyond the end) but the call returned; before " + before + " after " + key(s));
+            if (fits && threw)
+                fail("C07", "range-append-threw-although-it-fits", what + "; container " + before);
+            if (fits && !threw && k == size0)
+            {
+                auto rv = range_vals(len, 1, nvalues);
+                r.vals.insert(r.vals.end(), rv.begin(), rv.end());
+            }
+            else
+                resync(s);
+            return true;
+        }
         if (c == "IR" || c == "PBR")
         {
             size_t k = c == "PBR" ? size0 : op.a;
